@@ -71,6 +71,21 @@ OUTSIDE = {
 MTIME = 1_600_000_000
 
 
+# sub-second parts of the files' modification times (ns): none, tiny, below/at/above one half,
+# large, the last microsecond, and just below a full second (where a float rounds up)
+FRACTIONS_NS = [0, 1_000, 400_000_000, 500_000_000, 500_001_000, 900_000_000, 999_999_000, 999_999_600,
+                999_999_999]
+
+
+def entry(p, data):
+    """(size, true mtime second = floor(st_mtime_ns / 1e9), data, st_mtime_ns, exact value of the
+    float st_mtime the responder reads as (numerator, denominator))."""
+    from fractions import Fraction
+    st = os.stat(p)
+    fr = Fraction(st.st_mtime)
+    return (len(data), st.st_mtime_ns // 10 ** 9, data, st.st_mtime_ns, (fr.numerator, fr.denominator))
+
+
 def build_tree():
     base = tempfile.mkdtemp(prefix='c16-tree.', dir='/dev/shm' if os.path.isdir('/dev/shm') else None)
     base = os.path.realpath(base)
@@ -83,16 +98,16 @@ def build_tree():
         os.makedirs(os.path.dirname(p), exist_ok=True)
         with open(p, 'wb') as fh:
             fh.write(data)
-        mt = MTIME + i * 10 + (0.5 if i % 2 else 0)
-        os.utime(p, (mt, mt))
-        listing[p] = (len(data), int(os.stat(p).st_mtime), data)
+        ns = (MTIME + i * 7) * 10 ** 9 + FRACTIONS_NS[i % len(FRACTIONS_NS)]
+        os.utime(p, ns=(ns, ns))
+        listing[p] = entry(p, data)
     for rel, data in OUTSIDE.items():
         p = os.path.join(base, rel)
         os.makedirs(os.path.dirname(p), exist_ok=True)
         with open(p, 'wb') as fh:
             fh.write(data)
-        os.utime(p, (MTIME, MTIME))
-        listing[p] = (len(data), MTIME, data)
+        os.utime(p, ns=(MTIME * 10 ** 9 + 999_999_600, MTIME * 10 ** 9 + 999_999_600))
+        listing[p] = entry(p, data)
     return base, root, listing
 
 
@@ -264,6 +279,22 @@ def lib_corr(ctx, model, quick):
     if bad:
         ctx.violation('correspondence-broken', {'broken': 'C16.normpath_corr', 'input': bad[0][0], 'model': bad[0][1],
                                                 'impl': bad[0][2], 'count': len(bad)}, found_input=False, key='normpath')
+    # truncation of st_mtime: int(x) (repaired) and fromtimestamp(x).replace(microsecond=0) (as found)
+    from fractions import Fraction
+    xs = []
+    for k in range(400 if quick else 4000):
+        sec = 1_600_000_000 + ctx.rng.randrange(0, 1000)
+        frac = ctx.rng.choice([0, 1e-6, 0.4, 0.5, 0.5000005, 0.4999995, 0.9, 0.999999, 0.9999994, 0.9999995,
+                               0.9999996, 0.99999988, ctx.rng.random(), 0.0000005, 0.0000015, 0.0000025])
+        xs.append(float(sec) + frac)
+    outs = model.run_many([[8, Fraction(x).numerator, Fraction(x).denominator, []] for x in xs])
+    for x, o in zip(xs, outs):
+        old = int(datetime.datetime.fromtimestamp(x, datetime.timezone.utc).replace(microsecond=0).timestamp())
+        ctx.note_case(('mt', x), old != int(x))
+        if o[1] != int(x) or o[2] != old:
+            ctx.violation('correspondence-broken', {'broken': 'C16.mtime_corr', 'x': repr(x), 'model': o[1:],
+                                                    'impl': [int(x), old]}, found_input=False, key='mtime-corr')
+    ctx.count('mtime-floats', len(xs))
     # basename / splitext
     names = strs[:6000] + ['a.tar.gz', '.bashrc', '..a', 'a..b', 'x/.y', 'x.d/y', 'a.', '.', '..', '...', 'a.b/', 'x/.a.b',
                            '.a.', 'é.ü', 'a.b.c/d']
@@ -424,7 +455,7 @@ def requests_corr(ctx, falcon, testing, model, base, root, listing, quick):
         aa = falcon.asgi.App()
         aa.add_static_route(prefix, d, downloadable=dl, fallback_filename=fb)
         apps[ci] = (testing.TestClient(wa), testing.TestClient(aa), wa._static_routes[0][0], aa._static_routes[0][0])
-    files_wire = [[p, v[0], v[1]] for p, v in sorted(listing.items())]
+    files_wire = [[p, v[0], v[4][0], v[4][1]] for p, v in sorted(listing.items())]
 
     def one(ci, path, range_value, ims, mode, method='GET'):
         """Run one request; -> (observed wire response, opened paths, raw)."""
@@ -630,14 +661,17 @@ def run_cases(ctx, falcon, testing, model, configs, one, cases, listing, files_w
         if status in (200, 206, 416) and opened:
             f = opened[-1]
             if f in listing:
-                size, mt, data = listing[f]
+                size, data = listing[f][0], listing[f][2]
                 resp_q.append([7, size, rh, got])
                 resp_meta.append((k, detail, data, body, got))
         if status == 304 and body:
             ctx.violation('range-clause-violated', dict(detail, what='304 with a body'), key='304-body')
         if status in (200, 206, 416, 304) and opened and opened[-1] in listing:
-            nm_q.append([8, listing[opened[-1]][1], ([] if ims is None else [ims])])
-            nm_meta.append((detail, status))
+            ent = listing[opened[-1]]
+            # judged on the REAL modification time (st_mtime_ns), not on what the code made of it
+            nm_q.append([8, ent[3], 10 ** 9, ([] if ims is None else [ims])])
+            nm_meta.append((dict(detail, st_mtime_ns=ent[3],
+                                 float_mtime_rounds_up=(ent[4][0] // ent[4][1] > ent[1])), status, hd))
     verdicts = model.run_many(contain_q)
     for (k, p, detail), v in zip(contain_meta, verdicts):
         if not v:
@@ -659,11 +693,20 @@ def run_cases(ctx, falcon, testing, model, configs, one, cases, listing, files_w
                                impl=[hd.get('content-type'), hd.get('content-disposition')]),
                           key='headers-%s' % (hd.get('content-type') != want_ct))
     verdicts = model.run_many(nm_q)
-    for (detail, status), v in zip(nm_meta, verdicts):
-        if bool(v) != (status == 304):
+    for (detail, status, hd), v in zip(nm_meta, verdicts):
+        notmod, lm_sec = bool(v[0]), v[1]
+        if notmod != (status == 304):
             ctx.violation('not-modified-violated',
-                          dict(detail, what='304 expected' if v else '304 although the file is newer'),
-                          key='not-modified-%s' % v)
+                          dict(detail, what='304 expected: the file was last modified in second %d <= '
+                               'If-Modified-Since' % lm_sec if notmod else '304 although the file is newer'),
+                          key='not-modified-%s-%s' % (notmod, detail['float_mtime_rounds_up']))
+        if status in (200, 206, 304):
+            want = http_date(falcon, lm_sec)
+            if hd.get('last-modified') != want:
+                ctx.violation('last-modified-violated',
+                              dict(detail, what='Last-Modified is not the modification time truncated to the second',
+                                   expected=want, impl=hd.get('last-modified')),
+                              key='last-modified-%s' % detail['float_mtime_rounds_up'])
     verdicts = model.run_many(resp_q)
     for (k, detail, data, body, got), v in zip(resp_meta, verdicts):
         ok = bool(v[0])
@@ -711,7 +754,7 @@ def replay(ctx, obj):
     aa = falcon.asgi.App()
     aa.add_static_route(prefix, d, downloadable=dl, fallback_filename=fb)
     wc, ac, wsr = testing.TestClient(wa), testing.TestClient(aa), wa._static_routes[0][0]
-    files_wire = [[p, v[0], v[1]] for p, v in sorted(listing.items())]
+    files_wire = [[p, v[0], v[4][0], v[4][1]] for p, v in sorted(listing.items())]
 
     def one(ci, path, range_value, ims, mode, method='GET'):
         headers = {}
